@@ -5,7 +5,8 @@ from penman._lexer import PENMAN_RE, TRIPLE_RE, lex
 
 from pv.gen import strings, texts, trees
 from pv.gen.base import EXOTIC
-from pv.harness import Enum, Hyp
+from pv.gen import corpus
+from pv.harness import Enum, Fuzz, Hyp
 from pv.props.common import short
 from pv.ref import lex as rlex
 
@@ -130,4 +131,6 @@ def stages(tier):
              lambda ch: ({'s': s} for s in strings.strings_of(ch, ALPHA, L, 2)),
              'every string of length <= %d over %d symbols (%d)' % (L, len(ALPHA), strings.count(ALPHA, L))),
         Hyp('random', _random, 6000, 500000),
+        Fuzz('coverage-guided-bytes', 0, 2000000, decode=lambda data: {'s': data.decode('utf-8', 'ignore')}, seeds=corpus.test_strings(60),
+             dictionary=corpus.DICTIONARY, max_len=80),
     ]
